@@ -246,9 +246,25 @@ pub fn run_peer(
     // every other scenario lives at another time with time passing quickly
     // (clock seam): when output reaches the peer does not depend on clocks
     let h = crate::rng::hash_bytes(sc.source.as_bytes());
+    struct ClockAccount(Option<(std::path::PathBuf, Vec<(String, String)>)>);
+    impl Drop for ClockAccount {
+        fn drop(&mut self) {
+            if let Some((report, env)) = &self.0 {
+                crate::procworld::account_clock(report, env);
+            }
+        }
+    }
+    // (declared before the child: accounted for when the run is over)
+    let mut _clock_account = ClockAccount(None);
     if h % 2 == 0 {
-        for (k, v) in crate::procworld::clock_env_for(h) {
-            cmd.env(k, v);
+        let env = crate::procworld::clock_env_for(h);
+        if !env.is_empty() {
+            let report = scratch.path.join("peer.clock");
+            for (k, v) in &env {
+                cmd.env(k, v);
+            }
+            cmd.env("RRSS_VERIF_CLOCK_REPORT", &report);
+            _clock_account = ClockAccount(Some((report, env)));
         }
     }
     if fault == StdoutFault::DevFull {
